@@ -323,12 +323,22 @@ def p_frame(it, env):
     return And(*cl)
 
 
+def c_never_wraps(it, env):
+    """vacuity guard (must be REFUTED in every shape): 'the filter never adds anything' - for a shape with a device that
+    stayed, its first counter comes back raw; otherwise an arbitrary input symbol is 0"""
+    st, res = env["st"], env["result"]
+    for key, status, digits in st["keys"]:
+        if status == "b" and not st["first"] and digits and isinstance(res, dict) and key in res:
+            return _eq(res[key][0], st["raw"][key][0])
+    return _eq(env["entry_other"]["cache"]["k0"][0], 0)
+
+
 STEP = Contract(
     "C10", COMMON_PY, "_WrapNumbers.run", name="_common._WrapNumbers.run (one step, any well-formed state)",
     setup=setup_step, env=ENV,
     configs=[{"shape": s_} for s_ in _sh.shapes(_os.environ.get("VERIF_TIER", "quick"))],
     ensures=[p_keys, p_values, p_monotone, p_offsets, p_cache, p_invariant, p_frame],
-    raises={}, canaries=[], replay="c10:step", max_paths=5000,
+    raises={}, canaries=[c_never_wraps], replay="c10:step", max_paths=5000,
     note="inductive step: from every state satisfying the representation invariant (shape table: <= 3 devices x <= 3 "
          "fields, all reminder layouts), for all counter values, one call returns raw + offset, grows the offset by the "
          "previous raw value exactly at a decrease, forgets devices that are not in the snapshot, stores the snapshot, "
